@@ -51,7 +51,8 @@ def check_program(shard, prog, base_argv, option_sets, choices_list, end_too=Fal
         # inputs on which the program reads an output byte it never stored (or overflows a signed int) have no
         # defined outcome to compare; the abstract machine detects them
         try:
-            trace.am_calls(m, [d[j:j + 1] for j in range(len(d))], call_end=False, indirect=comps[0].do("INDIRECT_START_PTR"))
+            # (including the end() call the binaries will receive: an undefined read may happen there as well)
+            trace.am_calls(m, [d[j:j + 1] for j in range(len(d))], call_end=bool(end_too and comps[0].do("EOF_SUPPORT")), indirect=comps[0].do("INDIRECT_START_PTR"))
         except am_mod.Undefined:
             shard.event("input_undefined_skipped")
             continue
@@ -73,7 +74,7 @@ def check_program(shard, prog, base_argv, option_sets, choices_list, end_too=Fal
         for b in range(256):
             w = pre + bytes([b])
             try:
-                trace.am_calls(m, [w[j:j + 1] for j in range(len(w))], call_end=False, indirect=comps[0].do("INDIRECT_START_PTR"))
+                trace.am_calls(m, [w[j:j + 1] for j in range(len(w))], call_end=bool(end_too and comps[0].do("EOF_SUPPORT")), indirect=comps[0].do("INDIRECT_START_PTR"))
             except (am_mod.Undefined, am_mod.Spin):
                 continue
             datas.append(w)
